@@ -200,12 +200,50 @@ func c20BuildAuth(tier string) core.Source {
 				return res
 			}
 		}
+		// two authentication attempts on ONE connection: first a key that is only offered (its proof of possession
+		// is invalid: the client knows the public half only), then a second key with a valid signature. The
+		// connection is admitted iff the SECOND key is listed, whatever was offered before.
+		if c.subset >= 0 {
+			for first := 0; first < 5; first++ {
+				for second := 0; second < 5; second++ {
+					if first == second {
+						continue
+					}
+					cfg := &ssh.ClientConfig{User: "rsync", HostKeyCallback: ssh.InsecureIgnoreHostKey(), Timeout: 20 * time.Second,
+						Auth: []ssh.AuthMethod{ssh.PublicKeys(c20PublicOnly{keys.signers[first]}, keys.signers[second])}}
+					cl, err := ssh.Dial("tcp", ln.Addr().String(), cfg)
+					ok := err == nil
+					if cl != nil {
+						cl.Close()
+					}
+					cnt(&res, "transitions", 1)
+					want := second < 4 && c.subset&(1<<second) != 0
+					if ok != want {
+						sym := "unlisted_key_admitted"
+						if want {
+							sym = "listed_key_refused"
+						}
+						res.Fail = core.Fail(sym, fmt.Sprintf("key %d (%s) offered without valid proof, then key %d (%s) with a valid signature: handshake ok=%v, want %v (err %v); listed subset %04b", first, keyName(keys, first), second, keyName(keys, second), ok, want, err, c.subset), "layout", layouts[c.layout], "key", keyName(keys, second), "sequence", "offer-then-sign")
+						return res
+					}
+				}
+			}
+		}
 		cnt(&res, "states", res.Counters["transitions"])
 		cnt(&res, "traces_validated_against_impl", res.Counters["transitions"])
 		res.Nontrivial = granted > 0 && denied > 0
 		res.Outcome = fmt.Sprintf("granted=%d/denied=%d", granted, denied)
 		return res
 	}}
+}
+
+// c20PublicOnly offers a public key but cannot prove possession of the private half.
+type c20PublicOnly struct{ ssh.Signer }
+
+func (p c20PublicOnly) Sign(rand io.Reader, data []byte) (*ssh.Signature, error) {
+	// a signature in a format the server does not accept: an ordinary authentication failure
+	// (a wrong signature in an accepted format would end the connection)
+	return &ssh.Signature{Format: "no-such-signature-format", Blob: []byte("x")}, nil
 }
 
 func keyName(k *c20Keys, i int) string {
@@ -583,7 +621,7 @@ func init() {
 	core.Register(&core.Prop{
 		ID:    "C20",
 		Level: "model_checking",
-		Rule: "auth: every subset of 4 listable keys (ed25519 x2, ecdsa-p256, rsa-2048) x authorized_keys layouts {plain, comments/blank lines/options prefix, CRLF} (incl. the empty file) x every client key (the 4, an unlisted one, none), plus the anonymous listener, each a real SSH handshake against anonssh.Serve; exec: the real daemon entry point (maincmd.Main --daemon with an authorized-SSH listener, i.e. the real session dispatch) receives every exec command line 'rsync w1..wk', k<=5 (thorough k<=6), over {--server,--daemon,--sender,-e<marker>,--rsh=<marker>,-e <next word>,--exclude <next word>,-vlogDtpr,.,<canary>/dir,<canary>/newdir,host:path,rsync://…,--gokr.modulemap=leak=<canary>,--gokr.config=<canary>/evil.toml}; requests: shell, subsystem, pty-req, env, foreign channel types. " +
+		Rule: "auth: every subset of 4 listable keys (ed25519 x2, ecdsa-p256, rsa-2048) x authorized_keys layouts {plain, comments/blank lines/options prefix, CRLF} (incl. the empty file) x every client key (the 4, an unlisted one, none) and every ordered pair (key offered without valid proof of possession, then another key with a valid signature) on one connection, plus the anonymous listener, each a real SSH handshake against anonssh.Serve; exec: the real daemon entry point (maincmd.Main --daemon with an authorized-SSH listener, i.e. the real session dispatch) receives every exec command line 'rsync w1..wk', k<=5 (thorough k<=6), over {--server,--daemon,--sender,-e<marker>,--rsh=<marker>,-e <next word>,--exclude <next word>,-vlogDtpr,.,<canary>/dir,<canary>/newdir,host:path,rsync://…,--gokr.modulemap=leak=<canary>,--gokr.config=<canary>/evil.toml}; requests: shell, subsystem, pty-req, env, foreign channel types. " +
 			"oracle: handshake succeeds iff the key is listed (always on the anonymous listener); a session produces the daemon greeting iff the command line selects --server --daemon, and such a session lists exactly the configured module and serves no other module name; every other command line yields no stdout bytes, a non-zero exit status, an untouched canary directory and no execution of the marker script. states/transitions = handshakes / sessions",
 		Assum: []string{"key material is generated per worker and is not an explored dimension", "landlock is neutralised in the worker (it would narrow what a session can reach; the property is about the listener's dispatch)", "the anonymous listener's dispatch closure is textually the same as the authorised one and needs Linux namespaces to start, so the authorised one is driven"},
 		Parts: func(tier string) []core.Part {
